@@ -34,6 +34,7 @@ type World struct {
 	funcIDs     map[string]int
 	funcByID    map[int]string
 	strLits     map[string]string // literal -> const name
+	strLitIDs   map[int]bool
 	strOrder    []string
 	uninterp    map[string]string // name -> declaration (declare-fun ...)
 	uninterpOrd []string
@@ -152,7 +153,7 @@ func (w *World) StructOf(t types.Type) *StructInfo {
 	st := t.Underlying().(*types.Struct)
 	name := "S_" + mangle(key)
 	if len(name) > 80 {
-		name = fmt.Sprintf("%s_%d", name[:60], len(w.structs))
+		name = fmt.Sprintf("%s_%d", name[:60], hashStr(key))
 	}
 	si := &StructInfo{Name: name, Ctor: "mk_" + name, Key: key}
 	for i := 0; i < st.NumFields(); i++ {
@@ -173,7 +174,9 @@ func (w *World) fieldID(structKey string, idx int, name string) int {
 	if id, ok := w.fieldIDs[k]; ok {
 		return id
 	}
-	id := len(w.fieldIDs) + 1
+	// ids are a function of the key (not of the order in which units happen to be encoded), so that
+	// the text of a query - and with it the solvers' behaviour - is the same on every run
+	id := stableID(k, func(i int) bool { _, taken := w.fieldNames[i]; return taken })
 	w.fieldIDs[k] = id
 	w.fieldNames[id] = structKey + "." + name
 	return id
@@ -182,6 +185,16 @@ func (w *World) fieldID(structKey string, idx int, name string) int {
 // GhostFieldID returns a field id for a ghost field name (used in paths for boxed values etc.)
 func (w *World) GhostFieldID(name string) int {
 	return w.fieldID("$ghost", len(name)*1000+int(hashStr(name)%1000), name)
+}
+
+// stableID: a positive id derived from the key alone (FNV hash, 30 bits); a collision with an id
+// already taken falls back to the next free one.
+func stableID(key string, taken func(int) bool) int {
+	id := int(hashStr(key)&0x3fffffff) + 1
+	for taken(id) {
+		id++
+	}
+	return id
 }
 
 func hashStr(s string) uint32 {
@@ -198,7 +211,7 @@ func (w *World) TypeTag(t types.Type) int {
 	if id, ok := w.typeTags[k]; ok {
 		return id
 	}
-	id := len(w.typeTags) + 1
+	id := stableID(k, func(i int) bool { _, taken := w.tagTypes[i]; return taken })
 	w.typeTags[k] = id
 	w.tagTypes[id] = t
 	return id
@@ -208,7 +221,7 @@ func (w *World) FuncID(name string) int {
 	if id, ok := w.funcIDs[name]; ok {
 		return id
 	}
-	id := len(w.funcIDs) + 1
+	id := stableID(name, func(i int) bool { _, taken := w.funcByID[i]; return taken })
 	w.funcIDs[name] = id
 	w.funcByID[id] = name
 	return id
@@ -221,7 +234,12 @@ func (w *World) StrLit(s string) Val {
 	if c, ok := w.strLits[s]; ok {
 		return Val{c, SStr}
 	}
-	c := fmt.Sprintf("strlit_%d", len(w.strLits))
+	if w.strLitIDs == nil {
+		w.strLitIDs = map[int]bool{}
+	}
+	n := stableID("lit:"+s, func(i int) bool { return w.strLitIDs[i] })
+	w.strLitIDs[n] = true
+	c := fmt.Sprintf("strlit_%d", n)
 	w.strLits[s] = c
 	w.strOrder = append(w.strOrder, s)
 	return Val{c, SStr}
@@ -277,15 +295,34 @@ func (w *World) Preamble(body string) string {
 			mark(si)
 		}
 	}
-	for _, si := range w.structOrder { // creation order is a valid dependency order
-		if !used[si] {
-			continue
+	// declaration order: by name, each struct after the structs its fields mention
+	var usedList []*StructInfo
+	for si := range used {
+		usedList = append(usedList, si)
+	}
+	sort.Slice(usedList, func(i, j int) bool { return usedList[i].Name < usedList[j].Name })
+	emitted := map[*StructInfo]bool{}
+	var emit func(si *StructInfo)
+	emit = func(si *StructInfo) {
+		if emitted[si] {
+			return
+		}
+		emitted[si] = true
+		for _, f := range si.Fields {
+			for _, other := range usedList {
+				if other != si && strings.Contains(string(f.Sort), other.Name) {
+					emit(other)
+				}
+			}
 		}
 		fmt.Fprintf(&b, "(declare-datatypes ((%s 0)) (((%s", si.Name, si.Ctor)
 		for _, f := range si.Fields {
 			fmt.Fprintf(&b, " (%s %s)", f.Sel, f.Sort)
 		}
 		b.WriteString("))))\n")
+	}
+	for _, si := range usedList {
+		emit(si)
 	}
 	var lits []string
 	strs := append([]string{}, w.strOrder...)
